@@ -963,3 +963,6 @@ M("c11-checkpoints-set-without-reroute", "C11", "cola/libavoid/connector.cpp",
   "    // The current route was computed for the previous checkpoints.\n    makePathInvalid();\n    m_router->modifyConnector(this);\n",
   "    // The current route was computed for the previous checkpoints.\n    if (m_checkpoints.empty()) makePathInvalid();\n    m_router->modifyConnector(this);\n",
   mention=["CHECKPOINT-CHANGE-REROUTES"])
+M("c08-fixed-rectangle-cluster-skips-children-bounds", "C08", "cola/libcola/cluster.cpp",
+  "            (*i)->computeBoundingRect(rs);\n        }\n        // For bounds, just use this shape's rectangle.",
+  "            if (!(*i)->clusters.empty()) (*i)->computeBoundingRect(rs);\n        }\n        // For bounds, just use this shape's rectangle.", mention=["CLUSTER-BOUNDS"])
